@@ -616,7 +616,7 @@ fn c15_addr(a: &mut Acc) {
 }
 
 fn c15_headers(a: &mut Acc) {
-    for version in [2u32, 3] {
+    for (version, hlen) in [(2u32, 0u32), (3, 0), (3, 104), (3, 120), (3, 136)] {
         for cb in [9u32, 12, 16, 21] {
             for ext in [false, true] {
                 for name_len in [0usize, 1, 7, 8, 200, 1023] {
@@ -626,13 +626,14 @@ fn c15_headers(a: &mut Acc) {
                     a.evals += 1;
                     let mut s = ImageSpec::new(cb, if version == 2 { 4 } else { 3 }, 16 << cb);
                     s.version = version;
+                    s.header_length = hlen;
                     s.extensions = ext;
                     if name_len > 0 {
                         s.backing_name = Some("n".repeat(name_len));
                     }
                     let b = spec::build_image(&s);
                     let buf = &b.bytes[..b.bytes.len().min(65536).max(512)];
-                    let case = format!("v{} cluster_bits {} ext {} name_len {}", version, cb, ext, name_len);
+                    let case = format!("v{} header_length {} cluster_bits {} ext {} name_len {}", version, if hlen == 0 { if version == 2 { 72 } else { 112 } } else { hlen }, cb, ext, name_len);
                     let r = catch_unwind(AssertUnwindSafe(|| Qcow2Header::from_buf(buf).map_err(|e| format!("{e:?}"))));
                     let mut h = match r {
                         Ok(Ok(h)) => h,
